@@ -43,7 +43,12 @@ func mkOperand(name string, kind int, strLen int) (any, sv) {
 		vh.Assume(vh.IsFinite(f)) // JSON documents hold finite doubles only
 		return f, sv{kind: kNum, num: f}
 	case kStr:
-		s := vh.Bytes(name+"_s", strLen)
+		// every length from empty up to strLen (thorough: one byte more)
+		max := strLen
+		if vh.Thorough() {
+			max++
+		}
+		s := vh.Bytes(name+"_s", vh.Choose(name+"_len", max+1))
 		return s, sv{kind: kStr, str: s}
 	case kBool:
 		b := vh.Bool(name + "_b")
@@ -547,4 +552,82 @@ func VHC05NumStrings() {
 	cell, k, _ := evalExpr(src, map[string]any{"s": str, "n": other})
 	vh.Reach("numeric string evaluated")
 	checkResult(cell, k, want, "C05 numeric-string coercion: "+strconv.Quote(str)+" in `"+src+"`")
+}
+
+type c05Val struct {
+	doc any
+	v   sv
+}
+
+var c05RepVals = []c05Val{
+	{2.5, sv{kind: kNum, num: 2.5}}, {-1.0, sv{kind: kNum, num: -1}}, {"a", sv{kind: kStr, str: "a"}},
+	{"10", sv{kind: kStr, str: "10"}}, {true, sv{kind: kBool, b: true}}, {nil, sv{kind: kNull}},
+}
+
+func c05Render(r sres) (string, bool) {
+	switch r.kind {
+	case resBool:
+		return bstr(r.b), true
+	case resNum:
+		return strconv.FormatFloat(r.num, 'f', -1, 64), true
+	case resStr:
+		return r.str, true
+	}
+	return "", false
+}
+
+// VHC05Repeat: the value of an operator expression depends only on the current values of
+// its operands: the SAME expression evaluated again - for the next record, in the next
+// loop iteration, in the next call - with other operands yields the table's value for
+// those (nothing computed for earlier operands is reused).
+func VHC05Repeat() {
+	route := vh.Choose("route", 3)
+	if vh.Choose("family", 2) == 1 {
+		// ~ and !~ with the pattern (a regex value or a string) held in a variable
+		pats := "[/^a/, /^b/, 'a$', 'b$']"
+		subj := []string{"ab", "ba"}
+		s1, s2 := vh.Choose("s1", 2), vh.Choose("s2", 2)
+		i1, i2 := vh.Choose("i1", 4), vh.Choose("i2", 4)
+		res := []*regexp.Regexp{regexp.MustCompile("^a"), regexp.MustCompile("^b"), regexp.MustCompile("a$"), regexp.MustCompile("b$")}
+		body := "print $.s ~ res[$.i], $.s !~ res[$.i]"
+		switch route {
+		case 1:
+			body = "print m($.s, res[$.i]), !m($.s, res[$.i])"
+		case 2:
+			body = "for (p, j in res) { if (j == $.i) { print $.s ~ p, $.s !~ p } }"
+		}
+		prog := "function m(s, p) { return s ~ p }\nBEGIN { res = " + pats + " }\n{ " + body + " }"
+		out, k := runProg(prog, []any{map[string]any{"s": subj[s1], "i": float64(i1)}, map[string]any{"s": subj[s2], "i": float64(i2)}})
+		m1, m2 := res[i1].MatchString(subj[s1]), res[i2].MatchString(subj[s2])
+		vh.Reach("repeated evaluation compared")
+		vh.Assert(k == OK && out == bstr(m1)+" "+bstr(!m1)+"\n"+bstr(m2)+" "+bstr(!m2)+"\n", "C05: ~ / !~ evaluated again with another pattern value uses that pattern")
+		return
+	}
+	ops := append(append([]string{}, arithOps...), cmpOps...)
+	op := ops[vh.Choose("op", len(ops))]
+	a, b := c05RepVals[vh.Choose("a", len(c05RepVals))], c05RepVals[vh.Choose("b", len(c05RepVals))]
+	spec := func(x, y sv) sres {
+		for _, o := range arithOps {
+			if o == op {
+				return specArith(op, x, y)
+			}
+		}
+		return specCompare(op, x, y)
+	}
+	w1, ok1 := c05Render(spec(a.v, b.v))
+	w2, ok2 := c05Render(spec(b.v, a.v))
+	if !ok1 || !ok2 {
+		return // an error or a result the statement leaves open: the single-evaluation harnesses
+	}
+	body := "print $.l " + op + " $.r"
+	switch route {
+	case 1:
+		body = "print f($.l, $.r)"
+	case 2:
+		body = "for (q in [1]) { t = $.l " + op + " $.r }\nprint t"
+	}
+	prog := "function f(x, y) { return x " + op + " y }\n{ " + body + " }"
+	out, k := runProg(prog, []any{map[string]any{"l": a.doc, "r": b.doc}, map[string]any{"l": b.doc, "r": a.doc}})
+	vh.Reach("repeated evaluation compared")
+	vh.Assert(k == OK && out == w1+"\n"+w2+"\n", "C05: `x "+op+" y` evaluated again with other operands yields the value for those operands")
 }
